@@ -449,6 +449,42 @@ fn build() -> Vec<Program> {
         p.funcs.push(Func { name: "main".into(), ret: None, params: vec![], body, inline: false, interrupt: false, proto_first: false });
         v.push(p);
     }
+    // 10. precedence and associativity: every ordered pair of binary operators in both
+    // groupings, printed with minimal parentheses, as an assignment and as the initialiser of a
+    // local (the two positions are parsed by different operator tables)
+    let pops = [BinOp::Add, BinOp::Sub, BinOp::And, BinOp::Or, BinOp::Xor, BinOp::Shl, BinOp::Shr];
+    let is_shift = |o: BinOp| matches!(o, BinOp::Shl | BinOp::Shr);
+    for o1 in pops.iter() {
+        for o2 in pops.iter() {
+            for shape in 0..2 {
+                let e = if shape == 0 {
+                    // (a o1 b) o2 c
+                    let b = if is_shift(*o1) { num(1) } else { lvv(BV) };
+                    let c = if is_shift(*o2) { num(2) } else { lvv(C) };
+                    bin(*o2, bin(*o1, lvv(A), b), c)
+                } else {
+                    // a o1 (b o2 c)
+                    if is_shift(*o1) {
+                        // the count must be a constant expression
+                        let c = if is_shift(*o2) { num(1) } else { num(2) };
+                        bin(*o1, lvv(A), bin(*o2, num(3), c))
+                    } else {
+                        let c = if is_shift(*o2) { num(2) } else { lvv(C) };
+                        bin(*o1, lvv(A), bin(*o2, lvv(BV), c))
+                    }
+                };
+                // assignment
+                v.push(main_with(vec![assign(LV::Var(R), e.clone())]));
+                // local initialiser
+                let mut p = base();
+                let l = p.vars.len();
+                p.vars.push(VarDecl { name: "l0".into(), kind: VarKind::Scalar(Ty::U8), mem: MemClass::Zp, scope: Scope::Local(0) });
+                let body = vec![Stmt::Decl(l, Some(e.clone())), assign(LV::Var(R), lvv(l))];
+                p.funcs.push(Func { name: "main".into(), ret: None, params: vec![], body, inline: false, interrupt: false, proto_first: false });
+                v.push(p);
+            }
+        }
+    }
     v
 }
 
